@@ -56,6 +56,34 @@ def table_rule(chk, prog):
             elif isinstance(s_, ast.Assign) and "wmm_filename" in ast.unparse(s_.targets[0]) and isinstance(s_.value, ast.Constant):
                 arms.append((thr, s_.value.value))
     collect(f.body(), None)
+    # the quantity compared with the epoch boundaries is the caller's decimal year itself: rounding it first moves every boundary by half a grid step
+    from sa.facts import Facts as _Facts, PHI as _PHI
+    tests = []
+
+    class _T(_Facts):
+        def split(self2, test, st):
+            if isinstance(test, ast.Compare) and "date_dec" in ast.unparse(test.left) and isinstance(test.comparators[0], ast.Constant):
+                tests.append((test, self2.vn(test.left, st)))
+            return super().split(test, st)
+    _T(f, prog).analyse()
+
+    def members(vn, depth=0):
+        if vn in _PHI and depth < 4:
+            out = set()
+            for m_ in _PHI[vn]:
+                out |= members(m_, depth + 1)
+            return out
+        return {vn}
+    for test, vn in tests:
+        site = WMM + "::WMM.reset_date::" + ast.unparse(test)
+        rounded = sorted(m_ for m_ in members(vn) if "round(" in m_ or "np.round" in m_ or "np.floor" in m_ or "int(" in m_)
+        if rounded:
+            why = "the model file is selected by comparing a *rounded* decimal year (%s) with the epoch boundary: dates within half a rounding step before the boundary get the next model " \
+                  "(at dt = 0) instead of their own (at dt = 5)" % rounded[0][:60]
+            chk.record("TABLE.select", site, "model selection compares the unrounded decimal year", verdict="VIOLATION", detail=why)
+            chk.finding("TABLE.select", WMM, "WMM.reset_date", "selection on a rounded date: %s" % ast.unparse(test), why, line=test.lineno)
+        else:
+            chk.record("TABLE.select", site, "the decimal year compared with the epoch boundary is not rounded or truncated first")
     if len(arms) < 3:
         chk.error("TABLE: found %d model-selection arms in reset_date, 3 confirmed by hand" % len(arms))
         return
